@@ -8,6 +8,8 @@ Proof of mechanism (bookkeeping arithmetic) + bounded stand-ins:
   C35.codegen.newline   VC on CodeGenerator.newline (exactly the contract pyvc/emit.py assumes).
   C35.codegen.write     VC on CodeGenerator.write / writeline: code_lineno counts the newlines written, a pending template line
                         is appended as (template line, code line) with the first newline batch, pairs strictly increasing.
+  C35.emit.output_lines emission contract on the real visit_Output (1-3 children, buffered / unbuffered): every run-time child is preceded by a
+                        newline(child) carrying that child's line.
   C35.codegen.private   table: the bookkeeping fields and stream.write are touched by __init__/write/newline only.
   C35.template.lineno   VC on Template.get_corresponding_lineno (loop invariant over an arbitrary list of pairs) and the
                         `k=v&...` string round trip (bounded, real expressions of visit_Template / Template.debug_info).
@@ -531,18 +533,27 @@ NON_CONSUMING_SELF = {"fail", "fail_eof", "fail_unknown_tag", "_fail_ut_eof", "i
 
 
 class _PState:
-    __slots__ = ("loc", "consumed", "pending")
+    __slots__ = ("loc", "consumed", "pending", "used")
 
-    def __init__(self, loc=None, consumed=False, pending=frozenset()):
+    def __init__(self, loc=None, consumed=False, pending=frozenset(), used=frozenset()):
         self.loc = dict(loc or {})
         self.consumed = consumed
         self.pending = pending
+        self.used = used  # token reads (by source position) whose line has already been given to a node on this path
 
     def key(self):
-        return (tuple(sorted(self.loc.items())), self.consumed, self.pending)
+        return (tuple(sorted(self.loc.items(), key=repr)), self.consumed, self.pending, self.used)
 
     def copy(self):
-        return _PState(self.loc, self.consumed, self.pending)
+        return _PState(self.loc, self.consumed, self.pending, self.used)
+
+    def fresh_read(self, where):
+        """a token is read (again) at this source position: a new token, its line has not been given to any node yet"""
+        if where not in self.used:
+            return self
+        s = self.copy()
+        s.used = s.used - {where}
+        return s
 
     def consume(self):
         s = self.copy()
@@ -550,7 +561,7 @@ class _PState:
         s.pending = frozenset()
         for k, v in list(s.loc.items()):
             if v[0] in ("TOK", "LINE"):
-                s.loc[k] = (v[0], v[1], True)
+                s.loc[k] = (v[0], v[1], True) + tuple(v[3:])
         return s
 
 
@@ -624,14 +635,15 @@ class LinenoAnalysis:
             return [(("OTHER",), s)]
         if isinstance(e, ast.Attribute):
             if self.is_stream(e.value) and e.attr == "current":
-                return [(("TOK", not s.consumed, False), s)]
+                where = (e.lineno, e.col_offset)
+                return [(("TOK", not s.consumed, False, where), s.fresh_read(where))]
             out = []
             for v, s2 in self.ev(e.value, s):
                 if e.attr == "lineno":
                     if v[0] == "TOK":
-                        out.append((("LINE", v[1], v[2]), s2))
+                        out.append((("LINE", v[1], v[2], v[3]), s2))
                     elif v[0] == "TOKC":
-                        out.append((("LINEC",), s2))
+                        out.append((("LINEC", v[1]), s2))
                     elif v[0] in ("NODE", "PARAM"):
                         out.append((("LINEN",), s2))
                     else:
@@ -644,7 +656,7 @@ class LinenoAnalysis:
             for v, s2 in self.ev(e.value, s):
                 for _, s3 in self.ev(e.slice, s2):
                     is_nodes = v[0] == "NODELIST" or (v[0] == "LIST" and isinstance(e.value, ast.Name) and self.in_node_lists(e.value.id))
-                    out.append(((("NODE",) if is_nodes and not isinstance(e.slice, ast.Slice) else ("OTHER",)), s3))
+                    out.append(((("NODE", frozenset()) if is_nodes and not isinstance(e.slice, ast.Slice) else ("OTHER",)), s3))
             return out
         if isinstance(e, ast.Call):
             return self.ev_call(e, s)
@@ -702,23 +714,44 @@ class LinenoAnalysis:
 
     def ev_args(self, call, s, check_lineno):
         """evaluate positional arguments, then keywords, in order; -> states"""
-        states = [s]
+        pairs = [(s, ())]  # (state, values of the positional arguments so far)
         for a in call.args:
             sub = a.value if isinstance(a, ast.Starred) else a
-            states = _dedupe([s2 for st_ in states for _, s2 in self.ev(sub, st_)])
-        for kw in call.keywords:
-            nxt = []
-            for st_ in states:
-                for v, s2 in self.ev(kw.value, st_):
-                    if kw.arg == "lineno" and check_lineno:
-                        s2 = self.use(call, kw, v, s2)
-                    nxt.append(s2)
-            states = _dedupe(nxt)
-        return states
+            pairs = [(s2, vals + (v,)) for st_, vals in pairs for v, s2 in self.ev(sub, st_)]
+        self.last_line_reads = {}
+        out = []
+        for st_, vals in pairs:
+            states = [st_]
+            for kw in call.keywords:
+                nxt = []
+                for st2 in states:
+                    for v, s2 in self.ev(kw.value, st2):
+                        if kw.arg == "lineno" and check_lineno:
+                            s2 = self.use(call, kw, v, s2, vals)
+                            if v[0] in ("LINE", "LINEC"):
+                                self.last_line_reads[s2.key()] = frozenset({v[-1]})
+                        nxt.append(s2)
+                states = nxt
+            out += states
+        self.last_arg_reads = frozenset(w for _, vals in pairs for a in vals if a[0] == "NODE" for w in a[1])
+        return _dedupe(out)
 
-    def use(self, call, kw, v, s):
+    def node_value(self, st_):
+        """the NODE value of a constructor call that ended in state st_: remembers which token reads its line (and its children's) came from"""
+        return ("NODE", self.last_line_reads.get(st_.key(), frozenset()) | self.last_arg_reads)
+
+    def use(self, call, kw, v, s, argvals=()):
         text = f"line {kw.value.lineno}: {ast.unparse(call.func)}(... lineno={ast.unparse(kw.value)})"
         is_template = ast.unparse(call.func) == "nodes.Template"
+        if v[0] in ("LINE", "LINEC"):
+            where = v[-1]
+            if where in s.used and not any(a[0] == "NODE" and where in a[1] for a in argvals):
+                # the same token's line for a second node that does not contain the first one: the second node denotes a LATER construct
+                # (another branch / operand / element) and must carry the line of one of its own tokens
+                self.problems.append((kw.value.lineno, text + f": the line of the token read at source line {where[0]} was already given to an earlier node that "
+                                                              "this node does not contain; a node for a later construct needs the line of its own first token"))
+            s = s.copy()
+            s.used = s.used | {where}
         if v[0] in ("LINEC", "LINEN", "PARAM"):
             verdict = "ok"
         elif v[0] == "LINE":
@@ -741,29 +774,31 @@ class LinenoAnalysis:
         has_lineno = any(k.arg == "lineno" for k in e.keywords)
         # next(self.stream)
         if isinstance(f, ast.Name) and f.id == "next" and e.args and self.is_stream(e.args[0]):
-            return [(("TOKC",), s.consume())]
+            where = (e.lineno, e.col_offset)
+            return [(("TOKC", where), s.consume().fresh_read(where))]
         if isinstance(f, ast.Attribute) and self.is_stream(f.value):
             states = self.ev_args(e, s, False)
+            where = (e.lineno, e.col_offset)
             if f.attr in CONSUMING_STREAM:
-                return [((("TOKC",) if f.attr == "expect" else ("OTHER",)), st_.consume()) for st_ in states]
+                return [((("TOKC", where) if f.attr == "expect" else ("OTHER",)), st_.consume().fresh_read(where)) for st_ in states]
             if f.attr == "next_if":
-                return [(("TOKC",), st_.consume()) for st_ in states] + [(("BOOL", False), st_) for st_ in states]
+                return [(("TOKC", where), st_.consume().fresh_read(where)) for st_ in states] + [(("BOOL", False), st_) for st_ in states]
             if f.attr == "skip_if":
                 return [(("BOOL", True), st_.consume()) for st_ in states] + [(("BOOL", False), st_) for st_ in states]
             return [(("OTHER",), st_) for st_ in states]
         if isinstance(f, ast.Attribute) and self.is_self(f.value):
             states = self.ev_args(e, s, has_lineno)
             if f.attr.startswith("parse") or f.attr == "subparse":
-                return [(("NODE",), st_.consume()) for st_ in states]
+                return [(("NODE", frozenset()), st_.consume()) for st_ in states]
             if f.attr == "free_identifier":
-                return [(("NODE",), st_) for st_ in states]
+                return [(("NODE", frozenset()), st_) for st_ in states]
             return [(("OTHER",), st_) for st_ in states]
         if has_lineno:
             # a node constructor (nodes.X(...), cls(...), nodes.Node.__init__(rv, ...))
             states = self.ev_args(e, s, True)
-            return [(("NODE",), st_) for st_ in states]
+            return [(self.node_value(st_), st_) for st_ in states]
         if isinstance(f, ast.Attribute) and isinstance(f.value, ast.Name) and f.value.id == "nodes":
-            return [(("NODE",), st_) for st_ in self.ev_args(e, s, False)]
+            return [(("NODE", frozenset()), st_) for st_ in self.ev_args(e, s, False)]
         if isinstance(f, ast.Attribute) and isinstance(f.value, ast.Name) and f.attr in ("append", "extend", "insert") and s.loc.get(f.value.id, ("",))[0] == "LIST":
             out = []
             for st_ in self.ev_args(e, s, False):
@@ -782,7 +817,7 @@ class LinenoAnalysis:
         for _, s1 in (self.ev(f, s) if not isinstance(f, ast.Name) else [(None, s)]):
             states += self.ev_args(e, s1, False)
         if passes_self or (fv is not None and fv[0] == "PARSEFN"):
-            return [(("NODE",), st_.consume()) for st_ in states]
+            return [(("NODE", frozenset()), st_.consume()) for st_ in states]
         if isinstance(f, ast.Name) and f.id == "getattr" and e.args and self.is_self(e.args[0]):
             return [(("PARSEFN",), st_) for st_ in states]
         if isinstance(f, ast.Name) and f.id == "isinstance":
@@ -1009,9 +1044,25 @@ def replay_parser_lineno(w):
         except jinja2.TemplateSyntaxError:
             continue
         for n in tree.body:
-            if isinstance(n, N.Stmt) and not isinstance(n, N.Output):
+            if isinstance(n, N.Stmt) and not isinstance(n, N.Output) and n.lineno is not None:
                 if n.lineno != 5:
                     bad.append(f"{type(n).__name__} statement whose tag name is on line 5 has lineno {n.lineno}")
+    # constructs with several branches / operands: every node carries a line of ITS OWN tag or operand
+    src = "{% if a %}\nx\n{% elif\nb %}\ny\n\n{% elif c %}\nz\n{% endif %}"
+    try:
+        top = next(env.parse(src).find_all(N.If))
+        for br, (lo, hi) in zip(top.elif_, ((3, 4), (7, 7))):
+            if not (lo <= br.lineno <= hi):
+                bad.append(f"the If node of the elif branch whose tag is on lines {lo}..{hi} has lineno {br.lineno}")
+    except jinja2.TemplateSyntaxError:
+        pass
+    for ex, cls, want in (("a\n+\nb\n+\nc", N.Add, {3, 5, 2, 4}), ("a\nor\nb\nor\nc", N.Or, {2, 3, 4, 5}), ("a\n~\nb", N.Concat, {1, 2})):
+        try:
+            found = [n.lineno for n in env.parse("{{ " + ex + " }}").find_all(cls)]
+        except jinja2.TemplateSyntaxError:
+            continue
+        if len(found) > 1 and len(set(found)) == 1:
+            bad.append(f"all {cls.__name__} nodes of the chain {ex!r} carry the same line {found[0]}")
     return (bool(bad), "; ".join(bad[:3]) if bad else "every node of the fixed family carries the line of one of its tokens")
 
 
@@ -1286,6 +1337,11 @@ WRAPPERS = {
     "macro": (["{% macro m%(n)d() %}"], ["{% endmacro %}", "{{ m%(n)d() }}"]),
     "call": (["{% macro c%(n)d() %}{{ caller() }}{% endmacro %}", "{% call c%(n)d() %}"], ["{% endcall %}"]),
     "autoescape": (["{% autoescape true %}"], ["{% endautoescape %}"]),
+    # buffered frames whose body is ONE lone run-time expression (whitespace control removes the surrounding template data)
+    "tight_macro": (["{% macro tm%(n)d() -%}"], ["{%- endmacro %}", "{{ tm%(n)d() }}"]),
+    "tight_call": (["{% macro tc%(n)d() %}{{ caller() }}{% endmacro %}", "{% call tc%(n)d() -%}"], ["{%- endcall %}"]),
+    "tight_set": (["{% set ts%(n)d -%}"], ["{%- endset %}"]),
+    "tight_filter": (["{% filter upper -%}"], ["{%- endfilter %}"]),
 }
 FILLER = ["text", "", "{{ 1 }}", "{# comment #}", "{{ [1,", "2,", "3]|length }}", "a {{ 'b' }} c", "{% set z = 1 %}", "{#", "multi", "#}", "{% raw %}", "{{ x }}", "{% endraw %}"]
 FILLER_GROUPS = [["text"], [""], ["{{ 1 }}"], ["{# comment #}"], ["{{ [1,", "2,", "3]|length }}"], ["a {{ 'b' }} c"], ["{% set z = 1 %}"], ["{#", "multi", "#}"],
@@ -1309,18 +1365,27 @@ def gen_case(rnd):
         pre, post = WRAPPERS[w]
         lines.extend(p.replace("%(n)d", str(n)) for p in pre)
         closers.append([p.replace("%(n)d", str(n)) for p in post])
-        filler(rnd.randint(0, 2))
-    prefix_same_line = rnd.choice(["", "", "x {{ 1 }} "])
-    lines.append(prefix_same_line + RAISE + rnd.choice(["", " tail"]))
-    raise_line = len(lines)
-    filler(rnd.randint(0, 1))
+        if not (w.startswith("tight_") and n == len(names) - 1):
+            filler(rnd.randint(0, 2))
+    tight = bool(names) and names[-1].startswith("tight_")
+    prefix_same_line = "" if tight else rnd.choice(["", "", "x {{ 1 }} "])
+    if not tight and rnd.random() < 0.15:
+        # the raising call is the CONDITION of an elif branch (reported at the elif tag's line, not at the if tag's)
+        lines.extend(["{% if false %}", "first branch", "{% elif boom() %}"])
+        raise_line = len(lines)
+        lines.extend(["second branch", "{% endif %}"])
+    else:
+        lines.append(prefix_same_line + RAISE + ("" if tight else rnd.choice(["", " tail"])))
+        raise_line = len(lines)
+    if not tight:
+        filler(rnd.randint(0, 1))
     for post in reversed(closers):
         lines.extend(post)
         filler(rnd.randint(0, 1))
     body = nl.join(lines) + rnd.choice(["", nl])
     mode = rnd.choice(["direct", "direct", "include", "parent_block", "child_block", "import_macro"])
     files = {}
-    if mode == "direct" or ("set_block" in names and mode != "include") or mode in ("parent_block", "child_block") and "block" in names:
+    if mode == "direct" or (("set_block" in names or "tight_set" in names) and mode != "include") or mode in ("parent_block", "child_block") and "block" in names:
         mode = "direct" if mode not in ("include",) else mode
     if mode == "direct":
         files["main.html"] = body
@@ -1473,6 +1538,120 @@ def replay_render(w):
 
 
 
+# ====================================================================================================
+# C35.emit.output_lines: emission contract on the real visit_Output
+# ====================================================================================================
+
+
+class LineMark:
+    """ghost piece of the emitted stream: newline(node) / writeline(.., node) was called with this node (its lineno becomes the
+    pending template line of the next write - C35.codegen.newline / write)"""
+
+    def __init__(self, node):
+        self.node = node
+
+    def __str__(self):
+        return ""
+
+    def __repr__(self):
+        return f"<line of {self.node!r}>"
+
+
+def _output_lines_configure(I):
+    from contracts.c15 import output_configure
+    from pyvc import emit
+    output_configure(I)
+    base = I.specs["CodeGenerator.newline"]
+
+    def newline_marked(I_, st, args, kwargs, node):
+        rs = base(I_, st, args, kwargs, node)
+        nd = args[1] if len(args) > 1 else kwargs.get("node")
+        if nd is not None:
+            for s2, _ in rs:
+                emit.out(s2, LineMark(nd))
+        return rs
+
+    I.specs["CodeGenerator.newline"] = newline_marked
+
+
+def output_lines(task, tier, seed):
+    """Emission contract on CodeGenerator.visit_Output for 1, 2 and 3 children (each an arbitrary expression or template data), with
+    and without a frame buffer, on every feasible path: every child that is evaluated at run time (a hole of the emitted code) is
+    preceded - with no other run-time child in between - by a newline(child)/writeline(.., child) carrying THAT child, so that an
+    error raised by it is attributed to the child's own template line (debug_info gets an entry at the child's code line)."""
+    t0 = time.time()
+    try:
+        from contracts.c15 import output_node_fields, _output_pre
+        from pyvc.emitcheck import EmitTask
+        from pyvc import emit
+    except ImportError as ex:
+        return [Res("C35.emit.output_lines", "unknown", "pyvc-emit", 0, f"emission infrastructure of contracts.c15 not importable: {ex}", "emission")]
+    out = []
+    configs = [k for n in (1, 2, 3) for k in itertools.product("ET", repeat=n) if "E" in k]
+    n_paths = n_runtime = 0
+    for kinds in configs:
+        et = EmitTask(PROP, "C35.emit.output_lines", "jinja2.compiler:CodeGenerator.visit_Output", N.Output, None, mode="stmts",
+                      buffers=(None, "t_buf"), node_fields=output_node_fields(kinds), configure=_output_lines_configure,
+                      env_fields={"finalize": None}, pre=_output_pre("none", False), gen_fields={"_finalize": None})
+        try:
+            scs = et.schemas()
+        except Unsupported as ex:
+            out.append(Res(f"C35.emit.output_lines[{''.join(kinds)}].engine", "unknown", "pyvc-emit", time.time() - t0, f"unsupported: {ex}", "emission"))
+            continue
+        for i, sc in enumerate(scs):
+            if sc.outcome == "raise":
+                continue
+            n_paths += 1
+            kids = list(sc.st.get(sc.st.get(sc.node).fields["nodes"]).items)
+            fails = []
+            mark = None
+            for p in sc.pieces:
+                if isinstance(p, LineMark):
+                    mark = p.node
+                elif isinstance(p, emit.Hole) and p.ref in kids:
+                    n_runtime += 1
+                    idx = kids.index(p.ref)
+                    if mark != p.ref:
+                        fails.append(f"run-time child #{idx} of {len(kids)} is written without a preceding newline(child): the pending template line is that of "
+                                     f"{'no node' if mark is None else ('child #' + str(kids.index(mark)) if mark in kids else 'another node')}")
+                    mark = None if mark != p.ref else mark
+                    mark = None
+            name = f"C35.emit.output_lines[{''.join(kinds)},buffer={sc.buffer}]#p{i}"
+            if fails:
+                out.append(Res(name, "refuted", "pyvc-emit", time.time() - t0, f"schema `{sc.describe()[:200]}`: " + "; ".join(fails[:2]), "emission",
+                               {"children": "".join(kinds), "buffer": sc.buffer, "key": f"{'buffered' if sc.buffer else 'unbuffered'}:{len(kids)}"}))
+            else:
+                out.append(Res(name, "discharged", "pyvc-emit", time.time() - t0, "", "emission"))
+    if n_runtime < 20:
+        out.append(Res("C35.emit.output_lines.paths", "error", "pyvc-emit", time.time() - t0, f"only {n_runtime} run-time children on {n_paths} paths", "emission"))
+    return out
+
+
+def replay_output_lines(w):
+    """native: a lone / first / last raising expression inside buffered and unbuffered frames; the innermost template frame must name
+    the expression's own line"""
+    import os
+    import shutil
+    import tempfile
+    tmpdir = tempfile.mkdtemp(prefix="c35_")
+    bodies = [(["{{ boom() }}"], 1), (["{{ 1 }}{{ boom() }}"], 1), (["x", "{{ boom() }}", "y"], 2), (["{{ 1 }}", "", "{{ boom() }}{{ 2 }}"], 3)]
+    frames = [("", "", 0), ("{% macro m() -%}", "{%- endmacro %}\n{{ m() }}", 1), ("{% set v -%}", "{%- endset %}", 1), ("{% filter upper -%}", "{%- endfilter %}", 1),
+              ("{% macro c() %}{{ caller() }}{% endmacro %}\n{% call c() -%}", "{%- endcall %}", 2), ("{% macro m() %}", "{% endmacro %}\n{{ m() }}", 1)]
+    bad = []
+    try:
+        for pre, post, off in frames:
+            for lines, at in bodies:
+                src = "first {{ 0 }}\n\n" + (pre + "\n" if pre else "") + "\n".join(lines) + ("\n" + post if post else "")
+                want = ("main.html", 2 + off + at)
+                got = run_case({"main.html": src}, "main.html", tmpdir)
+                if got != want:
+                    bad.append(f"{src!r}: innermost template frame {got}, expected {want}")
+    finally:
+        shutil.rmtree(tmpdir, ignore_errors=True)
+    return (bool(bad), "; ".join(bad[:2]) or "raising expressions in buffered and unbuffered frames are reported at their own line")
+
+
+
 def codegen_tasks():
     ts = [Newline(wn, wd) for wn in (False, True) for wd in (True, False)]
     ts += [Write(True), Write(False), Writeline(True), Writeline(False)]
@@ -1482,6 +1661,9 @@ def codegen_tasks():
 def other_tasks():
     ts = []
     t = FnTask(PROP, "C35.parser.lineno", parser_lineno, kind="path", replay_fn=replay_parser_lineno)
+    t.finding_key = parser_key
+    ts.append(t)
+    t = FnTask(PROP, "C35.emit.output_lines", output_lines, kind="emission", replay_fn=replay_output_lines)
     t.finding_key = parser_key
     ts.append(t)
     ts.append(FnTask(PROP, "C35.codegen.private", codegen_private, kind="table", replay_fn=lambda w: replay_roundtrip(w) if w.get("task") == "roundtrip" else replay_codegen(w)))
